@@ -220,8 +220,21 @@ func VH_X2_index2() {
 
 // ---- X3: unmarshal on arbitrary bytes = spec --------------------------------
 
+// vSeal overwrites a 4-byte CRC field with the CRC32 of the bytes it covers
+// when the harness runs in "sealed" mode. Arbitrary CRC bytes (unsealed) let the
+// solver explore rejections; sealed fields make accepted inputs replayable, as
+// a real CRC32 then stands where the uninterpreted one stood.
+func vSeal(field []byte, covered []byte) {
+	c := specCRC32(covered)
+	field[0], field[1], field[2], field[3] = byte(c), byte(c>>8), byte(c>>16), byte(c>>24)
+}
+
+
 func VH_X3_header() {
 	d := vNondetBytes("d", 12)
+	if vNondetBool("sealed") {
+		vSeal(d[8:12], d[6:8])
+	}
 	var h header
 	err := h.UnmarshalBinary(d)
 	ck, ok := specHeader(d)
@@ -234,6 +247,9 @@ func VH_X3_header() {
 
 func VH_X3_footer() {
 	d := vNondetBytes("d", 12)
+	if vNondetBool("sealed") {
+		vSeal(d[0:4], d[4:10])
+	}
 	var f footer
 	err := f.UnmarshalBinary(d)
 	sz, ck, ok := specFooter(d)
@@ -256,6 +272,9 @@ func VH_X3_blockHeader() {
 	n := words * 4
 	d := vNondetBytes("d", n)
 	d[0] = byte(words - 1)
+	if vNondetBool("sealed") {
+		vSeal(d[n-4:], d[:n-4])
+	}
 	var h blockHeader
 	err := h.UnmarshalBinary(d)
 	cs, us, code, strict := specBlockHeader(d, false)
@@ -288,6 +307,9 @@ func VH_X3_readBlockHeader() {
 	d := vNondetBytes("d", n)
 	first := vNondetU8("first")
 	d[0] = first
+	if vNondetBool("sealed") {
+		vSeal(d[n-4:], d[:n-4])
+	}
 	avail := vConcretize(int(vNondetU8("avail")) % (n + 1))
 	src := &vSrc{data: d, end: avail}
 	h, k, err := readBlockHeader(src)
@@ -320,6 +342,24 @@ func VH_X3_indexBody() {
 	n := vConcretize(int(vNondetU8("n")) % (maxLen + 1))
 	d := vNondetBytes("d", n)
 	expected := vConcretize(int(vNondetU8("expected")) % 3)
+	if vNondetBool("sealed") {
+		// locate the CRC field as the format lays it out: count, that many records, padding
+		cnt, k, ok := specVarint(d, true)
+		q := k
+		for i := uint64(0); ok && i < cnt && i < 4; i++ {
+			_, k1, ok1 := specVarint(d[q:], true)
+			q += k1
+			_, k2, ok2 := specVarint(d[q:], true)
+			q += k2
+			ok = ok1 && ok2
+		}
+		for (q+1)%4 != 0 {
+			q++
+		}
+		if ok && q+4 <= n {
+			vSeal(d[q:q+4], append([]byte{0}, d[:q]...))
+		}
+	}
 	recs, m, err := readIndexBody(bytes.NewReader(d), expected)
 	vAssert(m <= int64(n), "never consumes more than available")
 	if err != nil {
